@@ -59,6 +59,9 @@ where
 
     /// nesting depth of the type resolution in progress (guards against circular types)
     type_resolution_depth: Cell<usize>,
+    /// the type resolution in progress has hit the depth limit: it is unwound instead of exploring
+    /// every other branch to that depth as well (`type T = T | T` doubles the work at each level)
+    type_resolution_gave_up: Cell<bool>,
 }
 
 impl<C> VueJsxTransformVisitor<C>
@@ -88,6 +91,7 @@ where
             injecting_consts: Default::default(),
 
             type_resolution_depth: Cell::new(0),
+            type_resolution_gave_up: Cell::new(false),
         }
     }
 
